@@ -79,6 +79,7 @@ pub fn replay(cases: &[Value], out: &mut Out) {
 	let rt = tokio::runtime::Builder::new_multi_thread().worker_threads(4).enable_all().build().unwrap();
 	rt.block_on(async {
 		let rig = Rig::new(RigCfg::default());
+		let small = Rig::new(RigCfg { max_req: 256, ..Default::default() });
 		for (i, c) in cases.iter().enumerate() {
 			for k in 0..k_concretisations() {
 				let mut rng = rng_for(i, k);
@@ -93,8 +94,22 @@ pub fn replay(cases: &[Value], out: &mut Out) {
 						out.verdict(i, k, None, json!({"skipped": "header value not representable"}));
 						continue;
 					}
-					let r = rig.http(m, &hs, vec![CALL.as_bytes().to_vec()]).await;
-					let log = rig.take_log();
+					// the body the request carries (the verdict of a refusal must not depend on it) and its framing
+					let gbody = c["case"]["body"].as_str().unwrap_or("call");
+					let (use_rig, frames): (&Rig, Vec<Vec<u8>>) = match gbody {
+						"garbage" => (&rig, vec![b"hello world, ".to_vec(), b"not json".to_vec()]),
+						"empty" => (&rig, vec![]),
+						"blank" => (&rig, vec![b" \n".to_vec(), b"  ".to_vec()]),
+						"oversize" => (&small, vec![vec![b' '; 150], format!(r#"{{"jsonrpc":"2.0","id":1,"method":"echo","params":["{}"]}}"#, "x".repeat(400)).into_bytes()]),
+						_ => (&rig, vec![CALL.as_bytes().to_vec()]),
+					};
+					let mut hs = hs;
+					if c["case"]["cl"] == json!(true) && gbody != "call" {
+						hs.push(("content-length".into(), frames.iter().map(|f| f.len()).sum::<usize>().to_string()));
+					}
+					use_rig.take_log();
+					let r = use_rig.http(m, &hs, frames).await;
+					let log = use_rig.take_log();
 					let allowed: Vec<&str> = c["allowed"].as_array().unwrap().iter().map(|a| a.as_str().unwrap()).collect();
 					let got = match r.status {
 						200 => "rpc".to_string(),
@@ -102,7 +117,7 @@ pub fn replay(cases: &[Value], out: &mut Out) {
 					};
 					let ctc = c["case"]["ct"]["cls"].as_str().unwrap();
 					if !allowed.contains(&got.as_str()) {
-						probs.push((format!("gate:{}:{ctc}:exp-{}-got-{got}", if m == "POST" { "POST" } else { "other-method" }, allowed.join("|")), json!({"headers": hs, "status": r.status})));
+						probs.push((format!("gate:{}:{ctc}:body-{gbody}:exp-{}-got-{got}", if m == "POST" { "POST" } else { "other-method" }, allowed.join("|")), json!({"headers": hs, "status": r.status})));
 					}
 					if got == "rpc" {
 						if classify(&r) != "result" || log.len() != 1 {
